@@ -218,6 +218,9 @@ func runC05(e *Env) error {
 			viol(v[0], v[1], v[2], v[3], c)
 		}
 	})
+	if e.Replay == "" {
+		c05CLI(e)
+	}
 	return nil
 }
 
